@@ -77,8 +77,8 @@ MANIFEST = {
                 "The audit of no_dangling is decided classically (the audited model is not executable; it is a proof device). "
                 "Emitter/Listener cannot be copied (compiler probe on every run). Single-threaded use. Slot bodies are finite scripts "
                 "indexed by (listener, slot, invocation number). Accesses to a List item after `List::remove` are invisible to ASan "
-                "(nstd pools list items). Harmless rewrites outside the translated subset (e.g. a `while` loop with a cursor) are reported as a "
-                "broken tie without a failing input; the conditions of search loops are canonicalised by the translator (truth table "
+                "(nstd pools list items). Harmless rewrites outside the translated subset are reported as a "
+                "broken tie without a failing input (the three recorded harmless rewrites are inside it and stay quiet); the conditions of search loops are canonicalised by the translator (truth table "
                 "over the comparisons), which is part of the trusted translator. The model and the translated code mirror the sources WITH "
                 "the repair of defect D18 (fixes/callback/0001-*.patch); on the unpatched tree the check reports the D18 inputs.",
         "design_ref": "DESIGN.md 3/C12",
